@@ -1338,16 +1338,17 @@ class TexArgs(list):
         BracketGroup('arg3')
         """
         arg = self.__coerce(arg)
+        # normalise the index the way list.insert does
+        i = max(0, len(self) + i) if i < 0 else min(i, len(self))
 
         if isinstance(arg, (TexGroup, TexCmd)):
             super().insert(i, arg)
 
         if len(self) <= 1:
             self.all.append(arg)
+        elif i == 0:
+            self.all.insert(0, arg)
         else:
-            if i > len(self):
-                i = len(self) - 1
-
             before = self[i - 1]
             index_before = self.all.index(before)
             self.all.insert(index_before + 1, arg)
